@@ -214,7 +214,7 @@ func tcpPair() (net.Conn, net.Conn, error) {
 		c, err := ln.Accept()
 		ch <- res{c, err}
 	}()
-	c1, err := net.DialTimeout("tcp", ln.Addr().String(), 5*time.Second)
+	c1, err := net.DialTimeout("tcp", ln.Addr().String(), 60*time.Second)
 	if err != nil {
 		return nil, nil, err
 	}
